@@ -90,6 +90,7 @@ type content struct {
 	s1, s2 string
 	b      bool
 	n      int
+	null   bool // the whole value is a null of its type (only with param nulls=1)
 }
 
 func newContent(slen int) content {
@@ -101,6 +102,9 @@ func newContent(slen int) content {
 	}
 	c.b = vf.Bool()
 	c.n = vf.Choice(4)
+	if vf.Param("nulls", 0) == 1 {
+		c.null = vf.Bool()
+	}
 	return c
 }
 
@@ -115,6 +119,9 @@ func num(i int) cty.Value { return numbers[vf.Concretize(i)] }
 func mkVal(k kind, c, pub content, placement int, wrap func(cty.Value) cty.Value) cty.Value {
 	if placement == 0 || k == kStr || k == kBool || k == kNum {
 		pub = c
+		if c.null {
+			return wrap(cty.NullVal(typeOf(k)))
+		}
 	}
 	leaf := func(v cty.Value) cty.Value {
 		if placement == 1 {
